@@ -60,20 +60,30 @@ def split_top(s, sep):
 
 
 def canon_code(code: str) -> str:
-    """renumber loop ids by first occurrence within each command's code (ids only need to be distinct
-    inside one command; an inlined global pattern re-uses the ids of its stored code in Go)"""
+    """loop ids only name a loop inside one command; Go re-uses the ids of a stored global pattern in
+    every inlined copy.  Canonical form: a StartLoop is named by its own pc, a StopLoop by the pc it
+    jumps back to."""
     toks = code.split(" ")
     out = []
-    ids = {}
     i = 0
+    pc = -1
+    incode = 0
     while i < len(toks):
         t = toks[i]
         if t == "code":
-            ids = {}
-        if t in ("startLoop", "stopLoop") and i + 1 < len(toks):
+            pc = -1
+            incode = 1
             out.append(t)
-            k = toks[i + 1]
-            out.append(str(ids.setdefault(k, len(ids))))
+            i += 1
+            continue
+        if incode and t == "(":
+            pc += 1
+        if t == "startLoop" and i + 1 < len(toks):
+            out += [t, "@%d" % pc]
+            i += 2
+            continue
+        if t == "stopLoop" and i + 2 < len(toks):
+            out += [t, "@" + toks[i + 2]]
             i += 2
             continue
         out.append(t)
@@ -151,7 +161,7 @@ def compare_run(ctx, cases, impl, model, proj_fields=ALL_FIELDS, what="matches d
         mf = C.fields(ml)
         mres = mf.get("RES", ml)
         counters["compared"] += 1
-        if mf.get("CODE") is not None and f.get("CODE") is not None and mf["CODE"] != f["CODE"]:
+        if mf.get("CODE") is not None and f.get("CODE") is not None and canon_code(mf["CODE"]) != canon_code(f["CODE"]):
             counters["code_drift"] += 1
         if mf.get("CODE2") is not None and f.get("CODE") is not None:
             counters["code2_compared"] = counters.get("code2_compared", 0) + 1
